@@ -7,6 +7,12 @@ CONFIGS = {}
 CONFIGS["C28"] = dict(
     prop="C28", engine="cache-lin", pkg="internal/caches", harness="C28",
     level="exploration",
+    level_text="seeded search over operation histories x lock-granularity interleavings x fake-clock advances of the real "
+               "caches package (with its real sweeper goroutines); every history is checked for linearizability against a "
+               "small nondeterministic bounded-expiring-map model (porcupine) together with eviction accounting (exactly "
+               "once, reported while the cache lock is free) and the size limit; a second batch runs under the race "
+               "detector with scheduler hand-offs hidden from it. Sampling, not proof.",
+    technique="deterministic simulation: seeded scheduler + fake clock, linearizability check (porcupine) of recorded histories",
     rewrite=dict(dirs=ALL_INTERNAL),
     race="also",
     quick=dict(runs=6000, per_proc=400, budget_s=240),
@@ -22,4 +28,32 @@ CONFIGS["C28"] = dict(
     stubbed=["time: testing/synctest fake clock", "sync: scheduling shim over the real primitives"],
     assumptions=["Go 1.26.8 testing/synctest and race detector", "porcupine v1.3.0", "reference model in props/C28/harness.go"],
     required_probes=["bg_evictions", "linearizable_histories"],
+)
+
+CONFIGS["C36"] = dict(
+    prop="C36", engine="fs-crash", pkg="tools/langlint", harness="C36",
+    level="fault_enumeration", enumerated=True,
+    level_text="exhaustive enumeration of crash points: the real lintFile/rewriteFile run on real files through a fault-point "
+               "wrapper of the os package; for each of 36 configurations the rewrite is stopped once at every point between "
+               "and inside its file-system operations (incl. torn writes) and the directory is inspected, then a later "
+               "fault-free run must succeed and leave only the target. The space is finite and is covered completely "
+               "(evidence exhaustive=true) under the process-crash model.",
+    technique="deterministic fault injection: exhaustive crash-point enumeration over a simulated file-system seam",
+    rewrite=dict(dirs=["tools/langlint"], sync=False, gostmt=False, osfiles=["tools/langlint/lint.go"]),
+    sim_packages=("sim", "sync", "simrun", "simfs"),
+    race="none",
+    quick=dict(runs=72, per_proc=5, budget_s=300),
+    thorough=dict(runs=72, per_proc=5, budget_s=900),
+    det_seeds=12,
+    rule="exhaustive: every configuration (3 content sizes x 3 file modes x 4 stale-file layouts) x every crash point of "
+         "the rewrite (before the first and after each file-system operation; inside each Write after 0, 1, half, n-1 "
+         "bytes); second half of the index space repeats the configurations with EIO/ENOSPC/EACCES injected at each "
+         "operation (informational). One evaluation = one configuration with all its crash points; distinct = distinct "
+         "(configuration, operation sequence); probes.crash_points counts the individual crash executions",
+    real=["tools/langlint lintFile/rewriteFile/Format (real code, real files in a scratch directory)"],
+    stubbed=["os: simfs fault-point wrapper over the real os package (lint.go only)"],
+    assumptions=["process-crash model: every completed file-system operation persists, a crash stops the program between "
+                 "or inside operations; power-loss reordering is not modelled (C36 speaks of the process stopping)"],
+    required_probes=["crash_points", "torn-write"],
+    required_probes_quick=["crash_points", "torn-write"],
 )
